@@ -365,22 +365,22 @@ func check(spec *PropSpec, tier, root string, verbose bool, replayOb *Ob, writeE
 			"seed":        seedEnv(),
 			"level":       "other",
 			"coverage": map[string]interface{}{
-				"explanation":        spec.Explanation,
-				"not_decided":        spec.NotDecided,
-				"obligations":        len(all) - nRes,
-				"discharged":         nOK,
-				"violations":         nViol,
-				"undecided":          nUndec,
-				"residual_sites":     residual,
-				"rules":              stats,
-				"samples":            samples,
+				"explanation":         spec.Explanation,
+				"not_decided":         spec.NotDecided,
+				"obligations":         len(all) - nRes,
+				"discharged":          nOK,
+				"violations":          nViol,
+				"undecided":           nUndec,
+				"residual_sites":      residual,
+				"rules":               stats,
+				"samples":             samples,
 				"known_findings_seen": knownSeen,
-				"build_configs":      cfgNames,
-				"positive_controls":  controls,
-				"packages_analysed":  npkgs,
-				"functions_analysed": nfuncs,
-				"notes":              notes,
-				"checker_cmd":        "bin/jpcheck -property " + spec.ID + " -tier " + tier,
+				"build_configs":       cfgNames,
+				"positive_controls":   controls,
+				"packages_analysed":   npkgs,
+				"functions_analysed":  nfuncs,
+				"notes":               notes,
+				"checker_cmd":         "bin/jpcheck -property " + spec.ID + " -tier " + tier,
 				"trusted_base": []string{"go/types and go/ssa of golang.org/x/tools v0.29.0", "hand-written effect/kind models of the standard-library callees (checker/models.go)",
 					"absence of unsafe/cgo/reflect.Set/go statements (rule BAN checks it)"},
 			},
